@@ -62,7 +62,7 @@ func c04Run(ctx *core.Ctx) {
 		core.Permutations(3, func(p []int) {
 			names := []string{"G1", "S2", "G2"}
 			order := []string{names[p[0]], names[p[1]], names[p[2]]}
-			for _, ab := range []string{"RSET", "HELLO"} {
+			for _, ab := range []string{"RSET", "HELLO", "EARLYFAIL"} {
 				for _, t2 := range []string{"bdat", "data"} {
 					for _, v1 := range []string{"readerr", "reject"} {
 						for _, v2 := range []string{"accept", "reject"} {
@@ -166,6 +166,10 @@ func c04Overlap(ctx *core.Ctx, c c04Case) {
 	rig.BE.H.Data = func(sess int, r *rec.Reader, st smtp.StatusCollector) error {
 		r.ReadN(2, 2)
 		which := string(r.Got)
+		if which == "T1" && c.Abort == "EARLYFAIL" {
+			// gives up in the middle of the first chunk, before the chunk has been copied
+			return &smtp.SMTPError{Code: 554, EnhancedCode: smtp.EnhancedCode{5, 6, 0}, Message: "v#T1 rejected early"}
+		}
 		if which == "T1" {
 			r.ReadN(8, 8)
 			gate.Wait("d1")
@@ -186,9 +190,13 @@ func c04Overlap(ctx *core.Ctx, c c04Case) {
 		return nil
 	}
 	p := rig.Dial()
-	p.SendStr(c.Mode.hello() + "\r\nMAIL FROM:<s1@x.test>\r\nRCPT TO:<r1@x.test>\r\nBDAT 8\r\nT1-chunk")
+	first1 := "BDAT 8\r\nT1-chunk"
+	if c.Abort == "EARLYFAIL" {
+		first1 = "BDAT 40\r\nT1-chunk that is never read to its end!!"
+	}
+	p.SendStr(c.Mode.hello() + "\r\nMAIL FROM:<s1@x.test>\r\nRCPT TO:<r1@x.test>\r\n" + first1)
 	head, err := expect(p, 5)
-	if err != nil || head[4].Code != 250 {
+	if err != nil || (head[4].Code != 250 && c.Abort != "EARLYFAIL") {
 		gate.OpenAll()
 		p.Close()
 		rig.Finish()
@@ -199,10 +207,15 @@ func c04Overlap(ctx *core.Ctx, c c04Case) {
 		ctx.Violate("C04:overlap-preamble", fmt.Sprintf("preamble failed: %v %s", err, codes(head)), c, witness(rig.Log, head))
 		return
 	}
-	gate.WaitParked("d1")
+	if c.Abort != "EARLYFAIL" {
+		gate.WaitParked("d1")
+	}
 	abort := "RSET"
 	if c.Abort == "HELLO" {
 		abort = c.Mode.hello()
+	}
+	if c.Abort == "EARLYFAIL" {
+		abort = "NOOP" // the failed chunk already ended transaction 1
 	}
 	first, second := "BDAT 8\r\nT2-chunk", "BDAT 6 LAST\r\nT2-end"
 	if c.T2 == "data" {
